@@ -25,6 +25,47 @@ import (
 
 func init() {
 	subcommands["drive"] = runDrive
+	replayers["drive"] = replayDriveOne
+}
+
+// replayDriveOne re-runs the history of a stored driver failure (a refusal of
+// an honest block, an error or a panic - deviating observations are confirmed
+// by the orchestrator through TLC) and reports whether it fails again.
+func replayDriveOne(cfg Config, v *Violation) int {
+	var line struct {
+		Step struct {
+			N int `json:"n"`
+		} `json:"step"`
+	}
+	if err := json.Unmarshal(v.Line, &line); err != nil {
+		fmt.Fprintln(os.Stderr, "ERROR bad replay file", err)
+		return 2
+	}
+	tmp, err := os.CreateTemp("", "drive-replay-*.ndjson")
+	if err != nil {
+		return 2
+	}
+	tmp.Close()
+	defer os.Remove(tmp.Name())
+	nh, _ := strconv.Atoi(optVal(v.X, "histories", "20"))
+	maxN, _ := strconv.Atoi(optVal(v.X, "maxn", "40"))
+	blocks, _ := strconv.Atoi(optVal(v.X, "blocks", "25"))
+	_ = nh
+	f, _ := os.Create(tmp.Name())
+	defer f.Close()
+	w := &driveWorld{sy: NewSymb(), rng: rand.New(rand.NewSource(int64(cfg.Seed)*100003 + int64(line.Step.N))), out: json.NewEncoder(f),
+		h: line.Step.N, live: map[int]bool{}, held: map[int]bool{}}
+	w.run(maxN, blocks)
+	for _, fl := range w.fails {
+		for _, p := range fl.Props {
+			if p == v.Property {
+				fmt.Printf("REPRODUCED property=%s inst=%s %s: %s\n", p, fl.Inst, fl.Cat, fl.What)
+				return 1
+			}
+		}
+	}
+	fmt.Println("NOT-REPRODUCED")
+	return 0
 }
 
 type driveEvent struct {
